@@ -13,3 +13,5 @@ open Cst.C07
 #print axioms reference_sees_install
 #print axioms slot_scenario_relaxed_races
 #print axioms marker_facts
+#print axioms data_lock_facts
+#print axioms data_scenario_relaxed_races
